@@ -62,10 +62,10 @@ SEMANTIC_RULES = {
     "C05": {"R1", "R2", "R3", "R6", "R8"},
     "C06": {"R1", "R2", "R3", "R4", "R5", "R6v", "R8"},
     "C07": {"R1v", "R2", "R4", "R5v"},
-    "C08": {"G1", "G2", "G5", "G6r", "G8"},
+    "C08": {"G2", "G6r", "G8", "G9"},
     "C09": {"R4", "R5"},
-    "C10": {"ENTRY", "PRIM", "CLONE", "BACKEND", "FTYPE", "OWN", "IMM"},
-    "C11": {"R1", "R5", "R6", "R7"},
+    "C10": {"ENTRY", "PRIM", "CLONE", "BACKEND", "FTYPE", "OWN", "IMM", "UPD"},
+    "C11": {"R1", "R5", "R6", "R7", "R9"},
     "C13": {"UNIQ", "LCA", "SIZED", "CONST", "XMODEL", "CONSTREJ", "DET"},
     "C14": {"R1v", "R2", "R5"},
     "C16": {"CLONE", "R6", "R7", "R8"},
